@@ -84,6 +84,11 @@ func rulesC10(r *Run) {
 	ruleFixVerdictStickyAll(r, "R3")
 	ruleFailedGroupNotPassed(r, "R3", smKey("BlockPostChecks"), "PostChecks")
 	ruleFailedGroupNotPassed(r, "R3", smKey("BlockDeferredChecks"), "DeferredChecks")
+	// round-4 seed C10-7: the gate's run of the ContChecks is also what repairs a ContChecks group a crash interrupted in the
+	// middle of a periodic re-run (the group itself is never stored Running, so fixChecks passes over it while its actions
+	// are): a recovered scope without PreChecks must not skip it because the group is "Completed" (= C06-R4)
+	ruleGateRunsContChecks(r, "R3", smKey("PlanPreChecks"), "workflow.Plan")
+	ruleGateRunsContChecks(r, "R3", smKey("BlockPreChecks"), "workflow.Block")
 	ruleTerminalGroupNotRerun(r, "R3", smKey("PlanPostChecks"), "PostChecks")
 	ruleTerminalGroupNotRerun(r, "R3", smKey("PlanDeferredChecks"), "DeferredChecks")
 	ruleSelfLoopMakesProgress(r, "R3")
